@@ -5,8 +5,8 @@ import NomtModel.Props.C03_Wal
 
 The WAL entry of a page carries only the slots its diff names, and `recover` writes them over the OLD content of the page's
 BUCKET — for a page the walk created, or a reconstructed page it promoted, that is a bucket some earlier occupant left its
-bytes in (a tombstone keeps its page) — not over the pool page the walker built the page in.  So the question for the crash
-theorem is not whether the diff names every slot that differs from the pool page (`DiffNames`, relative), but whether it names
+bytes in (a tombstone keeps its page) — not over the pool page the walker built the page in.  So the question for the
+crash theorem is not whether the diff names every slot that differs from the pool page (`DiffNames`, relative), but whether it names
 every slot the trie DEFINES in the page (absolutely).  It does: `set_node` / `set_sibling` call `diff.set_changed`
 unconditionally, and the walker writes every meaningful slot of such a page (`T16_walker_names_every_written_slot`,
 `Store/WalkerTreeWrites.lean`; for a reconstructed page the reconstruction diff travels in `total_diff`,
